@@ -101,3 +101,24 @@ Proof.
   vm_compute. repeat split; try reflexivity.
   eexists. eexists. split; reflexivity.
 Qed.
+
+(* ---------- source level (tie C, second translator): the Gallina translation of the CURRENT Go
+   text of httpParseResponseLine (gen/Translated2.v, `harness translate2`) returns, for EVERY
+   []byte value (elements 0..255, length an int), normally (no bounds panic, fuel suffices) and
+   exactly what the hand model http_parse_response_line returns (resp_proj reads the Go result
+   pair as the model's option). *)
+Require Import GoSlices Translated2 Translated2Ok.
+
+Theorem C10_source_response_line : forall l : list Z, go_bytes l -> go_fits l ->
+  exists r, g2_httpParseResponseLine l = Ok r
+            /\ resp_proj r = http_parse_response_line ascii_to_int (nb l)
+            /\ (snd r = None \/ snd r = Some E_ErrMalformedResponse).
+Proof. exact src_response_line. Qed.
+Print Assumptions C10_source_response_line.
+
+Example C10_source_nonvacuous :
+  g2_httpParseResponseLine (zb (HsHttp.bs "HTTP/1.1 101 Switching Protocols"))
+  = Ok (g2_mk_httpResponseLine 1%Z 1%Z 101%Z (zb (HsHttp.bs "Switching Protocols")), None)
+  /\ g2_httpParseResponseLine (zb (HsHttp.bs "HTTP/1.1 0101 Switching Protocols"))
+     = Ok (g2_mk_httpResponseLine 1%Z 1%Z 0%Z (zb (HsHttp.bs "Switching Protocols")), Some E_ErrMalformedResponse).
+Proof. vm_compute. split; reflexivity. Qed.
